@@ -361,14 +361,15 @@ pub enum SendMessageError {
     IO(#[from] std::io::Error),
 }
 
-// Same as SocketAddr::eq but ignores the ip if it is unspecified for testing reasons.
+// Same as SocketAddr::eq, except that a request sent to the unspecified address (which the OS
+// delivers to this host; used in tests) is answered from the loopback address, and from nowhere else.
 fn compare_socket_addr(a: &SocketAddrV4, b: &SocketAddrV4) -> bool {
     if a.port() != b.port() {
         return false;
     }
 
     if a.ip().is_unspecified() {
-        return true;
+        return b.ip().is_loopback() || b.ip().is_unspecified();
     }
 
     a.ip() == b.ip()
